@@ -173,6 +173,9 @@ func basePattern(server string) *regexp.Regexp {
 		return regexp.MustCompile(`^`)
 	case "/V2":
 		return regexp.MustCompile(`^/V2`)
+	case "/b%20c":
+		return regexp.MustCompile(`^/b c`) // request paths are kept decoded; the URL escapes them
+
 	case "/api/{ver}/{area}":
 		return regexp.MustCompile(`^/api/[^/]+/[^/]+`)
 	case "/api/{ver}":
@@ -331,6 +334,9 @@ func check(c Case) (o h.Outcome) {
 				}
 			}
 			base = strings.TrimSuffix(base, "/")
+			if ub, uerr := url.PathUnescape(base); uerr == nil {
+				base = ub // the request path is held decoded
+			}
 			if !(c.Path == base || strings.HasPrefix(c.Path, base+"/")) {
 				o.Fail("wrong-server:"+c.Router, "route.Server is %q, whose base path is not a prefix of the request path %q (declared servers: %s)", route.Server.URL, c.Path, c.Server)
 				return
@@ -416,7 +422,7 @@ func check(c Case) (o h.Outcome) {
 
 var tplPool = []string{"/a", "/a/{x}", "/a/b", "/{x}", "/{x}/b", "/a/{x}/b", "/a/{x}/{y}", "/{x}/{y}", "/b/{y}", "/b", "/a/b/c", "/a/{x}/c", "/{x}/b/{y}", "/a/b/{y}", "/a/p-{x}", "/a/p-b", "/a/{x}.json", "/a/b.json", "/a/{x}.{y}", "/{x}-{y}/b", "/a/{w}/d", "/{v}/d/{y}"}
 var methodSets = [][]string{{"GET"}, {"POST"}, {"GET", "POST"}, {"GET", "PUT", "DELETE"}}
-var servers = []string{"none", "/v1", "/", "/V2", "/api/{ver}", "http://h.example/base", "{scheme}://h.example/base", "http://{env}.example/base", "multi:/v1,/v10", "multi:/v10,/v1", "first:/one,/two", "/api/{ver}/{area}"}
+var servers = []string{"none", "/v1", "/", "/V2", "/b%20c", "/api/{ver}", "http://h.example/base", "{scheme}://h.example/base", "http://{env}.example/base", "multi:/v1,/v10", "multi:/v10,/v1", "first:/one,/two", "/api/{ver}/{area}"}
 var values = []string{"1", "abc", "a.b", "x-y_z~", "b", "a", "Xy9", "B"}
 
 func baseOf(server string) string {
@@ -435,6 +441,8 @@ func baseOf(server string) string {
 		return ""
 	case "/V2":
 		return "/V2"
+	case "/b%20c":
+		return "/b c"
 	case "/api/{ver}/{area}":
 		return "/api/v2/eu"
 	case "/api/{ver}":
